@@ -407,8 +407,6 @@ static void run_config(const vh::Args& a, uint64_t idx)
             if (dId) out.viol("precheck|discard_by_level-id-discards-passing-message", det);
             if (dName) out.viol("precheck|discard_by_level-name-discards-passing-message", det);
          }
-         if (dId != !p || dName != !p)
-            out.viol("precheck|discard_by_level-differs-from-processLevel", std::string(d));
       }
    }
    // unknown log: a message to it reaches nobody, "discard" is the only sound answer; must not crash
